@@ -56,7 +56,8 @@ def approxSignedH (g : Graph) (k : Nat) (scan order : List Nat) (σ : Nat → Li
 def approxFvsTreesH (g : Graph) (k : Nat) (scan order picks : List Nat) (sorter : List Cand → List Cand) : ApproxOutcome :=
   approxCoreH g k scan (fun sp => mcbFvsTrees sp order picks sorter)
 
-def approxIsoTreesH (g : Graph) (k : Nat) (scan order : List Nat) (sorter : List Cand → List Cand) : ApproxOutcome :=
-  approxCoreH g k scan (fun sp => mcbIsoTrees sp order sorter)
+/-- `approx_mcb_sva_iso_trees` (its exact phase is the FVS-tree algorithm, see `approxIsoTrees`) -/
+def approxIsoTreesH (g : Graph) (k : Nat) (scan order picks : List Nat) (sorter : List Cand → List Cand) : ApproxOutcome :=
+  approxCoreH g k scan (fun sp => mcbFvsTrees sp order picks sorter)
 
 end Parmcb
